@@ -13,12 +13,30 @@ Plain queries are `period = 0`; `eligZ d z` = the not read-only instances of zon
 namespace PC12
 open C12 PfC12
 
-/-! ### deterministic: State / Timestamp / Addr / Versions do not influence the shard -/
+/-! ### deterministic ("depends on nothing else")
+
+`shard_ignores_state_ts` is true by construction of the model (`shardIds` projects every instance with
+`core` first); that the CODE reads nothing else is differential evidence (the harness perturbs exactly
+State / Timestamp / Addr / Versions). The statements with content are `shard_perm_invariant` (the order
+in which the Go map is listed is irrelevant) and `shard_plain_now_irrelevant` (so is the clock). -/
 
 theorem shard_ignores_state_ts (cfg : Cfg) (d d' : Ring.Desc) (starts : String → Nat → Nat) (size period now : Int)
     (h : d.map core = d'.map core) :
     shardIds cfg d starts size period now = shardIds cfg d' starts size period now :=
   PfC12.shard_ignores_state_ts cfg d d' starts size period now h
+
+/-- the shard does not depend on the order in which the descriptor (a Go map) is listed: plain shard for
+every size, look-back shard for every positive size (not proved: look-back with `size ≤ 0`, whose
+two shortcuts read the minimum `ReadOnlyUpdatedTimestamp`). -/
+theorem shard_perm_invariant (cfg : Cfg) (d d' : CDesc) (hd : WF d) (h : d.Perm d') (starts : String → Nat → Nat)
+    (size period now : Int) (hs : 0 < size ∨ period = 0) (m : CInst) :
+    m ∈ shard cfg d starts size period now ↔ m ∈ shard cfg d' starts size period now :=
+  PfC12.shard_perm_invariant cfg d d' hd h starts size period now hs m
+
+/-- without look-back the result does not depend on the clock (`ShuffleShard` passes `time.Now()`). -/
+theorem shard_plain_now_irrelevant (cfg : Cfg) (d : CDesc) (starts : String → Nat → Nat) (size now now' : Int) :
+    shard cfg d starts size 0 now = shard cfg d starts size 0 now' :=
+  PfC12.shard_plain_now_irrelevant cfg d starts size now now'
 
 /-! ### total on well-formed rings: the inconsistent-token `panic` of `shuffleShard` is unreachable -/
 
@@ -84,7 +102,10 @@ theorem shard_sub_unsharded (cfg : Cfg) (d : CDesc) (hd : WF d) (starts : String
     (h0 : s0 ≤ 0) : ∀ m ∈ shard cfg d starts s 0 now, m ∈ shard cfg d starts s0 0 now' :=
   PfC12.shard_sub_unsharded cfg d hd starts s s0 now now' h0
 
-/-! ### the whole-zone shortcut equals what the walk yields (with or without look-back) -/
+/-! ### the whole-zone shortcut equals what the walk yields (with or without look-back)
+
+A statement about the two branches of `zoneStep` (shortcut vs. `picks`), not about `shard` as a whole: it
+is what makes the shortcut unobservable and is used by `shard_remove_one` / `lookback_superset`. -/
 
 theorem shortcut_consistent (d : CDesc) (hd : WF d) (ht : AllTok d) (p : LB) (starts : String → Nat → Nat)
     (z : String) (n : Nat) (hn : countPerZone d z ≤ n) (x : CInst) :
@@ -138,33 +159,44 @@ theorem lookback_contains_plain (cfg : Cfg) (d : CDesc) (hd : WF d) (ht : AllTok
   rw [hf] at this
   exact this
 
-/-- the same when read-only flags changed inside the window: `g` gives every instance as it was then
-(only `ro` / `roTs` may differ, `ROOnly g`); a flag differs from the present one only if the present
-`ReadOnlyUpdatedTimestamp` lies inside the window. -/
+/-- the same when read-only flags changed inside the window: `g` gives every instance of the ring as it
+was then (on the members of `d` only `ro` / `roTs` may differ: `ROOnlyOn d g`); for a member a flag differs
+from the present one only if the present `ReadOnlyUpdatedTimestamp` lies inside the window. All
+hypotheses speak about members of `d` only. -/
 theorem lookback_superset_readonly (cfg : Cfg) (d : CDesc) (hd : WF d) (ht : AllTok d) (starts : String → Nat → Nat)
     (size period now now' : Int) (hsize : 0 < size) (hperiod : 0 < period)
     (J : List CInst) (hJ : ∀ x ∈ J, x.regTs ≥ now - period)
-    (g : CInst → CInst) (hg : ROOnly g) (hK : ∀ i, (g i).ro ≠ i.ro → i.roTs ≥ now - period)
+    (g : CInst → CInst) (hg : ROOnlyOn d g) (hK : ∀ i ∈ d, (g i).ro ≠ i.ro → i.roTs ≥ now - period)
     (hz : cfg.zoneAware = true → zonesOf (d.filter fun x => !J.contains x) = zonesOf d) :
     ∀ m' ∈ shard cfg ((d.filter fun x => !J.contains x).map g) starts size 0 now',
       ∃ m ∈ shard cfg d starts size period now, g m = m' :=
-  PfC12.lookback_superset_readonly cfg d hd ht starts size period now now' hsize hperiod J hJ g hg hK hz
+  PfC12.lookback_superset_readonly_on cfg d hd ht starts size period now now' hsize hperiod J hJ g hg hK hz
 
 /-- **the look-back shard covers the window** (history corollary): `rτ` is the ring at some moment of
 the window; since then the instances `L` left, the instances `J` registered and read-only flags
 changed as described by `g`. Every member of the plain shard of that moment that is still registered
 is, in its present form, a member of the look-back shard now. (A smaller size at that moment is
-covered by `shard_mono_size`.) Guards: unchanged zone set along the way (finding F-C12-1). -/
+covered by `shard_mono_size`.) Guards: unchanged zone set along the way (finding F-C12-1).
+`lookback_window_example` below is a concrete ring, window and history meeting every hypothesis. -/
 theorem lookback_covers_window (cfg : Cfg) (d : CDesc) (hd : WF d) (ht : AllTok d) (starts : String → Nat → Nat)
     (size period now now' : Int) (hsize : 0 < size) (hperiod : 0 < period)
     (rτ : CDesc) (hrτ : WF rτ) (htτ : AllTok rτ) (L J : List CInst)
     (hJ : ∀ x ∈ J, x.regTs ≥ now - period)
-    (g : CInst → CInst) (hg : ROOnly g) (hK : ∀ i, (g i).ro ≠ i.ro → i.roTs ≥ now - period)
+    (g : CInst → CInst) (hg : ROOnlyOn d g) (hK : ∀ i ∈ d, (g i).ro ≠ i.ro → i.roTs ≥ now - period)
     (hr : rτ.filter (notIn L) = (d.filter fun x => !J.contains x).map g)
     (hzL : cfg.zoneAware = true → ∀ L' : List CInst, (∀ y ∈ L', y ∈ L) → zonesOf (rτ.filter (notIn L')) = zonesOf rτ)
     (hzJ : cfg.zoneAware = true → zonesOf (d.filter fun x => !J.contains x) = zonesOf d) :
     ∀ m' ∈ shard cfg rτ starts size 0 now', m' ∉ L → ∃ m ∈ shard cfg d starts size period now, g m = m' :=
-  PfC12.lookback_covers_window cfg d hd ht starts size period now now' hsize hperiod rτ hrτ htτ L J hJ g hg hK hr hzL hzJ
+  PfC12.lookback_covers_window_on cfg d hd ht starts size period now now' hsize hperiod rτ hrτ htτ L J hJ g hg hK hr hzL hzJ
+
+/-- look-back with `size ≤ 0` ("no sharding", the `filterOutReadOnlyInstances` path): the earlier
+unsharded result — every instance registered then and not read-only then — is covered as well. -/
+theorem lookback_superset_unsharded (cfg : Cfg) (d : CDesc) (starts : String → Nat → Nat)
+    (size period now now' : Int) (hsize : size ≤ 0) (hperiod : 0 < period)
+    (keep : CInst → Bool) (g : CInst → CInst) (hK : ∀ i ∈ d, (g i).ro ≠ i.ro → i.roTs ≥ now - period) :
+    ∀ m' ∈ shard cfg ((d.filter keep).map g) starts size 0 now',
+      ∃ m ∈ shard cfg d starts size period now, g m = m' :=
+  PfC12.lookback_superset_unsharded cfg d starts size period now now' hsize hperiod keep g hK
 
 /-- one instance switches to read-only (`setRO x t` sets the flag of `x`): the new shard is the old one
 without `x` plus at most one new instance; unchanged if `x` was not a member. Zones and counts do not
@@ -231,31 +263,33 @@ theorem pshard_deactivate_one (ps : List Part) (h : PWF ps) (starts : Nat → Na
   PfC12.pshard_deactivate_one ps h starts size now now' x hx s hs t
 
 /-- look-back superset: the earlier ring is the present one without the partitions added inside the
-window (`keep`) and with the earlier states (`g`, only state / state timestamp differ; a state differs
-only if the present `StateTimestamp` is inside the window; no partition went back to PENDING, which no
-legal transition does). Every id of the earlier plain shard is an id of the present look-back shard. -/
+window (`keep`) and with the earlier states (`g`; on the partitions of `ps` only state / state timestamp
+differ; a state differs only if the present `StateTimestamp` is inside the window; no partition went
+back to PENDING, which no legal transition does). Every id of the earlier plain shard is an id of the
+present look-back shard. All hypotheses speak about partitions of `ps` only. -/
 theorem pshard_lookback_superset (ps : List Part) (h : PWF ps) (ht : PAllTok ps) (htn : PTokNodup ps)
     (starts : Nat → Nat) (size period now now' : Int) (hperiod : 0 < period)
-    (keep : Part → Bool) (hJ : ∀ x, keep x = false → x.stateTs ≥ now - period)
-    (g : Part → Part) (hg : StateOnly g) (hK : ∀ x, (g x).state ≠ x.state → x.stateTs ≥ now - period)
-    (hP : ∀ x, (g x).state = PState.active → x.state ≠ PState.pending) :
+    (keep : Part → Bool) (hJ : ∀ x ∈ ps, keep x = false → x.stateTs ≥ now - period)
+    (g : Part → Part) (hg : StateOnlyOn ps g) (hK : ∀ x ∈ ps, (g x).state ≠ x.state → x.stateTs ≥ now - period)
+    (hP : ∀ x ∈ ps, (g x).state = PState.active → x.state ≠ PState.pending) :
     ∀ id ∈ pshard ((ps.filter keep).map g) starts size 0 now', id ∈ pshard ps starts size period now :=
-  PfC12.pshard_lookback_superset ps h ht htn starts size period now now' hperiod keep hJ g hg hK hP
+  PfC12.pshard_lookback_superset_on ps h ht htn starts size period now now' hperiod keep hJ g hg hK hP
 
 /-- **the partition look-back shard covers the window** (history with removals, additions and state
 changes): `rτ` is the partition ring at some moment of the window; since then the partitions `L` were
 removed, the partitions dropped by `keep` were added (their `StateTimestamp` is inside the window) and
 states changed as `g` describes (only inside the window, never back to PENDING). Every id of the plain
-shard of that moment that was not removed is an id of the look-back shard now. -/
+shard of that moment that was not removed is an id of the look-back shard now.
+`pshard_window_example` below meets every hypothesis with concrete data. -/
 theorem pshard_lookback_covers_window (ps : List Part) (h : PWF ps) (ht : PAllTok ps) (htn : PTokNodup ps)
     (starts : Nat → Nat) (size period now now' : Int) (hperiod : 0 < period)
     (rτ : List Part) (hrτ : PWF rτ) (htτ : PAllTok rτ) (htnτ : PTokNodup rτ) (L : List Part)
-    (keep : Part → Bool) (hJ : ∀ x, keep x = false → x.stateTs ≥ now - period)
-    (g : Part → Part) (hg : StateOnly g) (hK : ∀ x, (g x).state ≠ x.state → x.stateTs ≥ now - period)
-    (hP : ∀ x, (g x).state = PState.active → x.state ≠ PState.pending)
+    (keep : Part → Bool) (hJ : ∀ x ∈ ps, keep x = false → x.stateTs ≥ now - period)
+    (g : Part → Part) (hg : StateOnlyOn ps g) (hK : ∀ x ∈ ps, (g x).state ≠ x.state → x.stateTs ≥ now - period)
+    (hP : ∀ x ∈ ps, (g x).state = PState.active → x.state ≠ PState.pending)
     (hr : rτ.filter (notInP L) = (ps.filter keep).map g) :
     ∀ id ∈ pshard rτ starts size 0 now', (∀ x ∈ L, x.id ≠ id) → id ∈ pshard ps starts size period now :=
-  PfC12.pshard_lookback_covers_window ps h ht htn starts size period now now' hperiod rτ hrτ htτ htnτ L keep hJ g hg hK hP hr
+  PfC12.pshard_lookback_covers_window_on ps h ht htn starts size period now now' hperiod rτ hrτ htτ htnτ L keep hJ g hg hK hP hr
 
 /-- **total on well-formed partition rings**: `pshardC` keeps `ringTokens`, `partitionByToken` and
 `desc.Partitions` apart, and either look-up failing returns `ErrInconsistentTokensInfo` as in the Go
@@ -414,12 +448,97 @@ example : let j : CInst := ⟨"a2", "a", [20], 95, 0, false⟩
     let d : CDesc := [wa1, j, wb1]
     WF d ∧ AllTok d ∧ (∀ x ∈ [j], x.regTs ≥ (100 : Int) - 10) ∧ zonesOf (d.filter fun x => ![j].contains x) = zonesOf d :=
   ⟨⟨by decide, by unfold TokNodup; decide⟩, by unfold AllTok; decide, by decide, by decide⟩
-/-- a read-only flag switched inside the window: `wflip` restores the earlier flag; hypotheses of
-`lookback_superset_readonly`. -/
-def wflip : CInst → CInst := fun i => if i.id = "a2" then { i with ro := false, roTs := 0 } else i
-example : ROOnly wflip ∧ (wflip ⟨"a2", "a", [20], 5, 95, true⟩).ro ≠ true ∧ (95 : Int) ≥ 100 - 10 :=
-  ⟨⟨fun i => by unfold wflip; split <;> rfl, fun i => by unfold wflip; split <;> rfl,
-    fun i => by unfold wflip; split <;> rfl, fun i => by unfold wflip; split <;> rfl⟩, by decide, by decide⟩
+/-! #### a concrete window meeting EVERY hypothesis of `lookback_superset_readonly` / `lookback_covers_window`
+
+now = 100, period = 10 (window start 90), one zone, zone-awareness on.
+Present ring `lwD` = `a1`, `a2` (read-only since 95), `j1` (registered at 95). At the earlier moment:
+`j1` was not registered yet (`lwJ`), `a2` was still read-write (`lwG` restores that), and `l1`, which
+left since, was there (`lwL`); `lwR` is that earlier ring. So `J ≠ []`, `L ≠ []`, `g ≠ id`. -/
+
+def lwA1 : CInst := ⟨"a1", "a", [10], 5, 0, false⟩
+def lwA2 : CInst := ⟨"a2", "a", [20], 5, 95, true⟩
+def lwA2' : CInst := ⟨"a2", "a", [20], 5, 0, false⟩
+def lwJ1 : CInst := ⟨"j1", "a", [30], 95, 0, false⟩
+def lwL1 : CInst := ⟨"l1", "a", [40], 5, 0, false⟩
+def lwD : CDesc := [lwA1, lwA2, lwJ1]
+def lwJ : List CInst := [lwJ1]
+def lwL : List CInst := [lwL1]
+def lwR : CDesc := [lwA1, lwA2', lwL1]
+def lwG : CInst → CInst := fun i => if i.id = "a2" then { i with ro := false, roTs := 0 } else i
+
+theorem lookback_window_example :
+    WF lwD ∧ AllTok lwD ∧ WF lwR ∧ AllTok lwR ∧
+    (∀ x ∈ lwJ, x.regTs ≥ (100 : Int) - 10) ∧ ROOnlyOn lwD lwG ∧
+    (∀ i ∈ lwD, (lwG i).ro ≠ i.ro → i.roTs ≥ (100 : Int) - 10) ∧ lwG lwA2 ≠ lwA2 ∧
+    lwR.filter (notIn lwL) = (lwD.filter fun x => !lwJ.contains x).map lwG ∧
+    (∀ L' : List CInst, (∀ y ∈ L', y ∈ lwL) → zonesOf (lwR.filter (notIn L')) = zonesOf lwR) ∧
+    zonesOf (lwD.filter fun x => !lwJ.contains x) = zonesOf lwD := by
+  refine ⟨⟨by decide, by unfold TokNodup; decide⟩, by unfold AllTok; decide,
+    ⟨by decide, by unfold TokNodup; decide⟩, by unfold AllTok; decide, by decide, ?_, by decide, by decide, by decide, ?_, by decide⟩
+  · refine ⟨?_, ?_, ?_, ?_⟩ <;> decide
+  · intro L' hL'
+    have hz : zonesOf lwR = ["a"] := by decide
+    rw [hz]
+    apply zonesOf_const
+    · intro he
+      have : lwA1 ∈ lwR.filter (notIn L') := by
+        refine List.mem_filter.mpr ⟨by decide, ?_⟩
+        simp only [notIn, Bool.not_eq_true']
+        cases hc : L'.contains lwA1 with
+        | false => rfl
+        | true =>
+          have := hL' lwA1 (by simpa using hc)
+          revert this; decide
+      rw [he] at this; cases this
+    · intro i hi
+      have hall : ∀ i ∈ lwR, i.zone = "a" := by decide
+      exact hall i (List.mem_filter.mp hi).1
+
+/-- the hypotheses of `lookback_covers_window` hold for this data, hence its conclusion (for every
+identifier stream and size): whoever was in the earlier plain shard and did not leave is in the
+look-back shard now. -/
+example (starts : String → Nat → Nat) (size : Int) (hsize : 0 < size) :
+    ∀ m' ∈ shard ⟨true⟩ lwR starts size 0 95, m' ∉ lwL → ∃ m ∈ shard ⟨true⟩ lwD starts size 10 100, lwG m = m' := by
+  obtain ⟨h1, h2, h3, h4, h5, h6, h7, _, h9, h10, h11⟩ := lookback_window_example
+  exact lookback_covers_window ⟨true⟩ lwD h1 h2 starts size 10 100 95 hsize (by decide) lwR h3 h4 lwL lwJ h5 lwG h6 h7 h9
+    (fun _ => h10) (fun _ => h11)
+
+/-- **the member restriction matters**: the natural `lwG` (defined by the id) does NOT satisfy the
+hypothesis quantified over all instances — only the member-restricted form is usable. -/
+theorem hK_over_all_instances_fails :
+    ¬ ∀ i : CInst, (lwG i).ro ≠ i.ro → i.roTs ≥ (100 : Int) - 10 := by
+  intro h
+  have := h ⟨"a2", "zz", [], 0, 0, true⟩ (by decide)
+  revert this; decide
+
+/-! #### the same for the partition ring: `keep ≠ fun _ => true`, `g ≠ id`, `L ≠ []` -/
+
+def pw0 : Part := ⟨0, .active, 5, [10]⟩
+def pw1 : Part := ⟨1, .inactive, 95, [20]⟩      -- was ACTIVE at the earlier moment
+def pw1' : Part := ⟨1, .active, 5, [20]⟩
+def pw2 : Part := ⟨2, .active, 95, [30]⟩        -- added inside the window
+def pw3 : Part := ⟨3, .active, 5, [40]⟩         -- removed since
+def pwPs : List Part := [pw0, pw1, pw2]
+def pwR : List Part := [pw0, pw1', pw3]
+def pwKeep : Part → Bool := fun p => p.id != 2
+def pwG : Part → Part := fun p => if p.id = 1 then { p with state := .active, stateTs := 5 } else p
+
+theorem pshard_window_example :
+    PWF pwPs ∧ PAllTok pwPs ∧ PTokNodup pwPs ∧ PWF pwR ∧ PAllTok pwR ∧ PTokNodup pwR ∧
+    (∀ x ∈ pwPs, pwKeep x = false → x.stateTs ≥ (100 : Int) - 10) ∧ StateOnlyOn pwPs pwG ∧
+    (∀ x ∈ pwPs, (pwG x).state ≠ x.state → x.stateTs ≥ (100 : Int) - 10) ∧
+    (∀ x ∈ pwPs, (pwG x).state = PState.active → x.state ≠ PState.pending) ∧
+    pwG pw1 ≠ pw1 ∧ pwKeep pw2 = false ∧
+    pwR.filter (notInP [pw3]) = (pwPs.filter pwKeep).map pwG := by
+  refine ⟨by unfold PWF; decide, by unfold PAllTok; decide, by unfold PTokNodup TokNodupG; decide,
+    by unfold PWF; decide, by unfold PAllTok; decide, by unfold PTokNodup TokNodupG; decide,
+    by decide, ⟨by decide, by decide⟩, by decide, by decide, by decide, by decide, by decide⟩
+
+example (starts : Nat → Nat) (size : Int) :
+    ∀ id ∈ pshard pwR starts size 0 95, (∀ x ∈ [pw3], x.id ≠ id) → id ∈ pshard pwPs starts size 10 100 := by
+  obtain ⟨h1, h2, h3, h4, h5, h6, h7, h8, h9, h10, _, _, h13⟩ := pshard_window_example
+  exact pshard_lookback_covers_window pwPs h1 h2 h3 starts size 10 100 95 (by decide) pwR h4 h5 h6 [pw3] pwKeep h7 pwG h8 h9 h10 h13
+
 example : (0 : Int) < 3 ∧ (3 : Int) ≤ 12 ∧ (12 : Int) ≤ maxInt := by decide
 example : countPerZone wring "a" ≤ 2 := by decide
 
